@@ -9,21 +9,24 @@ U = Unit('att_d7', description='bluetoe::server<shared_write_queue<32|64>, max_m
 def exec_loop(n):
     return ['_ZN3w%d5inputEiPKhmPhPm.%d:%d' % (q, i, n) for q in (32, 64) for i in range(4)]
 
-def H(seq, k, cfg=0, vl=3, wl=2, mtu=23):
-    return {'CFG': cfg, 'MODE': 0, 'K': k, 'SEQ': seq, 'VL': vl, 'WL': wl, 'MTU': mtu}
+def H(seq, k, cfg=0, vl=3, wl=2, mtu=23, sl=4):
+    return {'CFG': cfg, 'MODE': 0, 'K': k, 'SEQ': seq, 'VL': vl, 'WL': wl, 'MTU': mtu, 'SL': sl}
 
 def cases_a(tier):
     cs = []
     # MODE 1: prepare accepted <=> write permitted (self-composition), queue free or own
     for cfg in (0, 1):
         for vl in ((0, 2) if tier == 'quick' else (0, 1, 2, 9)):
-            cs.append({'CFG': cfg, 'MODE': 1, 'K': 0, 'SEQ': 0, 'VL': vl, 'WL': 0, 'MTU': 23})
+            cs.append({'CFG': cfg, 'MODE': 1, 'K': 0, 'SEQ': 0, 'VL': vl, 'WL': 0, 'MTU': 23, 'SL': 4})
     # MODE 0: histories from reset; SEQ digit 0 = symbolic operation
     cs.append(H(1, 1))
     cs.append(H(0, 1, cfg=1))
     cs.append(H(0, 2, vl=10))            # two elements of 16 bytes fill the 32 byte queue exactly
     cs.append(H(0, 3))
+    # 5 = malformed Prepare Write (SL octets, too short for handle + offset) followed by Execute Write: nothing may be queued / applied
+    cs.append(H(25, 2, sl=4)); cs.append(H(215, 3, sl=3))
     if tier == 'thorough':
+        cs.append(H(25, 2, sl=1)); cs.append(H(25, 2, sl=2)); cs.append(H(25, 2, cfg=1, sl=4))
         cs.append(H(0, 3, cfg=1))
         cs.append(H(0, 2, vl=0))
         cs.append(H(0, 2, cfg=1, vl=12, mtu=65))
@@ -32,7 +35,7 @@ def cases_a(tier):
         cs.append(H(0, 3, cfg=1, vl=10, wl=8))
     return cs
 
-# 1 Prepare, 2 Execute, 3 Write Request, 4 disconnect; least significant digit is the first step
+# 1 Prepare, 2 Execute, 3 Write Request, 4 disconnect, 5 malformed (short) Prepare; least significant digit is the first step
 SHAPES4 = [2111, 1111, 1411, 2121, 2311, 1211]
 SHAPES4_T = [1112, 4111, 1311, 2141, 2211, 1121, 2411, 3211]
 SHAPES56 = [(21111, 5), (12111, 5), (21211, 5), (14111, 5), (211211, 6), (121411, 6), (212121, 6), (211111, 6)]
